@@ -12,6 +12,8 @@ import (
 	"path/filepath"
 	"strings"
 
+	. "verif/harness/common"
+
 	"github.com/MontFerret/ferret/pkg/compiler"
 	"github.com/MontFerret/ferret/pkg/runtime"
 	"github.com/MontFerret/ferret/pkg/runtime/core"
@@ -19,7 +21,10 @@ import (
 	"github.com/MontFerret/ferret/pkg/stdlib/arrays"
 )
 
-func init() { commands["c07"] = runC07 }
+func main() {
+	out, tier, seed, rest := Args()
+	runC07(out, tier, seed, rest)
+}
 
 func safeCompare(a, b core.Value) (c byte) {
 	defer func() {
@@ -95,28 +100,28 @@ func runC07(out, tier string, seed int64, _ []string) {
 	if tier == "thorough" {
 		nRandom, opsN, nSort = 500, 400, 600
 	}
-	U := universe(rng, nRandom, tier)
-	m := newMeta("C07", tier, seed)
+	U := Universe(rng, nRandom, tier)
+	m := NewMeta("C07", tier, seed)
 	m.Rule = "universe = fixed scalar pool (all 9 kinds) + all width<=2 depth<=2 arrays/objects over sub-pools + seeded random values; every ordered pair is one evaluation; a pair is non-trivial when the two values are not the same universe entry; distinct = distinct rendered (a,b) texts"
 	for _, v := range U {
-		m.count("kind:" + kindOf(v))
+		m.Count("kind:" + KindOf(v))
 	}
 
 	tbl := &valueTable{U}
 	c := compiler.New()
-	must(c.RegisterFunction("V", tbl.fn))
+	Must(c.RegisterFunction("V", tbl.fn))
 	prog, err := c.Compile(`LET a = V(@i) LET b = V(@j) RETURN [a == b, a != b, a < b, a <= b, a > b, a >= b,
 	  a IN [b], a NOT IN [b], POSITION([b], a), INCLUDES([b], a), [a] ALL == b, [a] ANY < b]`)
-	must(err)
+	Must(err)
 
 	f, err := os.Create(filepath.Join(out, "cases.v"))
-	must(err)
+	Must(err)
 	w := bufio.NewWriterSize(f, 1<<20)
 	fmt.Fprintln(w, "From Ferret Require Import Compare Check.C07.")
 	fmt.Fprintln(w, "Definition U : list value := [")
 	rendered := make([]string, len(U))
 	for i, v := range U {
-		rendered[i] = coqValue(v)
+		rendered[i] = CoqValue(v)
 		sep := ";"
 		if i == len(U)-1 {
 			sep = ""
@@ -132,7 +137,7 @@ func runC07(out, tier string, seed int64, _ []string) {
 		for j, b := range U {
 			row[j] = safeCompare(a, b)
 			m.Evaluations++
-			m.count("sign:" + string(row[j]))
+			m.Count("sign:" + string(row[j]))
 			if i != j {
 				distinct[rendered[i]+"|"+rendered[j]] = struct{}{}
 			}
@@ -141,7 +146,7 @@ func runC07(out, tier string, seed int64, _ []string) {
 		if i == len(U)-1 {
 			sep = ""
 		}
-		fmt.Fprintf(w, " \"%s\"%s\n", coqEscape(pack3(signDigits(row))), sep)
+		fmt.Fprintf(w, " \"%s\"%s\n", CoqEscape(pack3(signDigits(row))), sep)
 	}
 	fmt.Fprintln(w, "]%string.")
 	m.DistinctNontrivial = len(distinct)
@@ -156,7 +161,7 @@ func runC07(out, tier string, seed int64, _ []string) {
 	for i := 0; i < opsN; i++ {
 		var sb strings.Builder
 		for j := range U {
-			outb, err := prog.Run(ctx, runtime.WithParam("i", i), runtime.WithParam("j", j), runtime.WithLog(discard))
+			outb, err := prog.Run(ctx, runtime.WithParam("i", i), runtime.WithParam("j", j), runtime.WithLog(Discard))
 			pat := "[]" // failure: an empty pattern never equals the model's
 			if err == nil && outb != nil {
 				bs := parseBoolArray(outb)
@@ -176,7 +181,7 @@ func runC07(out, tier string, seed int64, _ []string) {
 			}
 			sb.WriteByte(byte(48 + idx))
 			m.Evaluations++
-			m.count("ops-pattern:" + pat)
+			m.Count("ops-pattern:" + pat)
 		}
 		orows[i] = sb.String()
 	}
@@ -187,12 +192,12 @@ func runC07(out, tier string, seed int64, _ []string) {
 		if i == opsN-1 {
 			sep = ""
 		}
-		fmt.Fprintf(w, " \"%s\"%s\n", coqEscape(r), sep)
+		fmt.Fprintf(w, " \"%s\"%s\n", CoqEscape(r), sep)
 	}
 	fmt.Fprintln(w, "]%string.")
 	// SORT / SORTED
 	sortProg, err := c.Compile(`FOR x IN V(@i) SORT x RETURN x`)
-	must(err)
+	Must(err)
 	_ = sortProg
 	var sIdx, pIdx []interface{}
 	fmt.Fprintln(w, "Definition S : list (list value * list value * list value) := [")
@@ -212,7 +217,7 @@ func runC07(out, tier string, seed int64, _ []string) {
 		fmt.Fprintf(w, " (%s, %s, %s)%s\n", coqList(in), o1, o2, sep)
 		sIdx = append(sIdx, map[string]interface{}{"input": coqList(in), "out": []string{o1, o2}, "kinds": kindsOf(in)})
 		m.Evaluations += 2
-		m.count(fmt.Sprintf("sort:len%d", n))
+		m.Count(fmt.Sprintf("sort:len%d", n))
 	}
 	fmt.Fprintln(w, "].")
 	fmt.Fprintln(w, "Definition P : list (list value * value * Z) := [")
@@ -240,16 +245,16 @@ func runC07(out, tier string, seed int64, _ []string) {
 		if k == nSort-1 {
 			sep = ""
 		}
-		fmt.Fprintf(w, " (%s, %s, %s)%s\n", coqList(in), coqValue(x), coqZ(pos), sep)
-		pIdx = append(pIdx, map[string]interface{}{"arr": coqList(in), "x": coqValue(x), "pos": pos, "kinds": kindsOf(append(in, x))})
+		fmt.Fprintf(w, " (%s, %s, %s)%s\n", coqList(in), CoqValue(x), CoqZ(pos), sep)
+		pIdx = append(pIdx, map[string]interface{}{"arr": coqList(in), "x": CoqValue(x), "pos": pos, "kinds": kindsOf(append(in, x))})
 		m.Evaluations++
-		m.count("position")
+		m.Count("position")
 	}
 	fmt.Fprintln(w, "].")
 	fmt.Fprintln(w, "Definition M := Eval vm_compute in mismatches U R OB O S P.")
 	fmt.Fprintln(w, "Print M.")
-	must(w.Flush())
-	must(f.Close())
+	Must(w.Flush())
+	Must(f.Close())
 	m.Files = []string{"cases.v"}
 	m.Index["U"] = rendered
 	m.Index["Ukind"] = kindsOf(U)
@@ -259,13 +264,13 @@ func runC07(out, tier string, seed int64, _ []string) {
 		m.Samples = append(m.Samples, map[string]string{"a": rendered[i], "b": rendered[(i*7+5)%len(U)],
 			"impl_sign": string(safeCompare(U[i], U[(i*7+5)%len(U)]))})
 	}
-	m.write(out)
+	m.Write(out)
 }
 
 func kindsOf(xs []core.Value) []string {
 	k := make([]string, len(xs))
 	for i, x := range xs {
-		k[i] = kindOf(x)
+		k[i] = KindOf(x)
 	}
 	return k
 }
@@ -273,12 +278,10 @@ func kindsOf(xs []core.Value) []string {
 func coqList(xs []core.Value) string {
 	parts := make([]string, len(xs))
 	for i, x := range xs {
-		parts[i] = coqValue(x)
+		parts[i] = CoqValue(x)
 	}
 	return "[" + strings.Join(parts, "; ") + "]"
 }
-
-func coqEscape(s string) string { return strings.ReplaceAll(s, `"`, `""`) }
 
 func parseBoolArray(b []byte) []bool {
 	s := strings.TrimSpace(string(b))
@@ -307,14 +310,14 @@ func sortViaQuery(c *compiler.Compiler, in *values.Array) (res string) {
 	}()
 	var got []core.Value
 	cc := compiler.New()
-	must(cc.RegisterFunction("SRC", func(_ context.Context, _ ...core.Value) (core.Value, error) { return in, nil }))
-	must(cc.RegisterFunction("TAKE", func(_ context.Context, args ...core.Value) (core.Value, error) {
+	Must(cc.RegisterFunction("SRC", func(_ context.Context, _ ...core.Value) (core.Value, error) { return in, nil }))
+	Must(cc.RegisterFunction("TAKE", func(_ context.Context, args ...core.Value) (core.Value, error) {
 		got = append(got, args[0])
 		return values.None, nil
 	}))
 	p, err := cc.Compile(`FOR x IN SRC() SORT x RETURN TAKE(x)`)
-	must(err)
-	_, err = p.Run(context.Background(), runtime.WithLog(discard))
+	Must(err)
+	_, err = p.Run(context.Background(), runtime.WithLog(Discard))
 	if err != nil {
 		return "[VStr (hx \"6572726f72\")]"
 	}
